@@ -6,7 +6,7 @@ RE=${1:-.}
 cd /verif
 W=/tmp/wt-matrix.$$
 git -C /repo worktree add -q --detach $W HEAD || exit 2
-for d in $(ls seeded | grep -E '^C[0-9]+-[a-z]$' | grep -E "$RE"); do
+for d in $(ls seeded | grep -E '^C[0-9]+-[a-z]$' | grep -E -- "$RE"); do
   props=$(echo $d | cut -d- -f1)
   [ "$d" = "C04-b" ] && props="C04 C10"
   (cd $W && git checkout -q -- . && git apply /verif/seeded/$d/patch.diff) || { grep -v "^$d	" seeded/RESULTS.tsv > seeded/RESULTS.tmp; echo "$d	APPLY-FAILED" >> seeded/RESULTS.tmp; mv seeded/RESULTS.tmp seeded/RESULTS.tsv; continue; }
